@@ -508,6 +508,9 @@ def validate_rewrite(cls_name, fields, atoms, result):
         # max(x, x) = min(x, x) = x (also for NaN: both operands are the same NaN)
         if any({a, b} == {"left", "right"} for a, b in same) and result[0] == "OPT" and result[1] in ("left", "right"):
             return None
+        if result[0] == "LIT" and not ("left" in subst and "right" in subst):
+            # max/min of operands that are not both known literals is one of the operands, never a constant
+            return f"{cls_name}: under guard {fmt_guard(atoms)} the original is one of its operands but the rewrite returns the constant {result[2]!r}"
         return f"{cls_name} rewritten to {result} under guard {fmt_guard(atoms)}: not interpretable (no semantic table for this rewrite of {cls_name})"
     if cls_name == "BooleanToInteger":
         if "expression" not in subst or subst["expression"][0] != "BooleanLiteral":
